@@ -62,15 +62,19 @@ VARIABLES
   clq,       \* Seq(RR)           rest of the current foreach round of cleanup()
   prog       \* BOOLEAN           something observable happened in the current cleanup round
 
-scripts == Programs[pid].scripts
-mscript == Programs[pid].main      \* already WithTail
+\* The configuration substitutes an operator for Programs; TLC would re-evaluate it on every reference, so the program
+\* sequence is evaluated once at start-up and kept in a TLC register.
+ASSUME TLCSet(18, Programs)
+Prog == TLCGet(18)
+scripts == Prog[pid].scripts
+mscript == Prog[pid].main      \* already WithTail
 
 ivars == <<pid, pc, ph, st, started, canc, joiner, ready, tmp, cur, mode, sNow, sNext, mpc,
            q, chw, mh, mw, sc, sw, bw, cs, cw, clq, prog>>
 vars == <<ivars, mvars>>
 
 Init ==
-  /\ pid \in 1..Len(Programs)
+  /\ pid \in 1..Len(Prog)
   /\ pc = [r \in RR |-> 1] /\ ph = [r \in RR |-> "s"] /\ st = [r \in RR |-> "None"]
   /\ started = [r \in RR |-> FALSE] /\ canc = [r \in RR |-> FALSE] /\ joiner = [r \in RR |-> 0]
   /\ ready = <<>> /\ tmp = <<>> /\ cur = 0 /\ mode = "main" /\ sNow = 0 /\ sNext = 0 /\ mpc = 1
